@@ -180,7 +180,9 @@ func (k FrontendKeyV6) AsBytes() []byte {
 }
 
 func (k FrontendKeyV6) Affinitykey() []byte {
-	return k[4:24]
+	// addr, port and protocol only: byte 23 is the first byte of the source address
+	// (struct calico_nat_key.saddr), not padding.
+	return k[4:23]
 }
 
 func (k FrontendKeyV6) AffinityKeyCopy() FrontEndAffinityKeyInterface {
@@ -509,7 +511,7 @@ func (k FrontEndAffinityKeyV6) Port() uint16 {
 func NewAffinityKeyV6(clientIP net.IP, fEndKey FrontendKeyV6) AffinityKeyV6 {
 	var k AffinityKeyV6
 
-	copy(k[:], fEndKey[4:4+frontendAffKeyV6Size])
+	copy(k[:], fEndKey[4:4+frontendAffKeyV6Size-1])
 
 	addr := clientIP.To16()
 	copy(k[frontendAffKeyV6Size:frontendAffKeyV6Size+16], addr)
